@@ -2,7 +2,7 @@
 From Coq Require Import List NArith Bool.
 From Frugal Require Import Bytes Wire Skip Values Desc Spec Encode Decode Checks Tags State Bitset Alloc DescMap Conc LegacyDefs.
 From Frugal.gen Require Import Params.
-From Frugal.proofs Require Import GenOk BytesWire EncodeSpec SizeExact SkipPut DecodeSafe DecodeRefines RoundTrip Corollaries StateProofs BitsetProofs AllocProofs DescMapProofs ConcProofs BufferContract.
+From Frugal.proofs Require Import GenParams GenTables BytesWire EncodeSpec.
 From Frugal.props Require Import Examples.
 Import ListNotations.
 
@@ -37,3 +37,8 @@ Proof. exact tables_ok_holds. Qed.
 Example C02_instance : append_struct env_ex 0 v_ex = put (denote env_ex (TStruct 0) v_ex)
   /\ parse_struct 64 (append_struct env_ex 0 v_ex) = POk (denote env_ex (TStruct 0) v_ex) [].
 Proof. split; vm_compute; reflexivity. Qed.
+
+(* the side conditions on the generated constants and tables that the theorems above assume hold
+   for what the translator read from the sources of this run *)
+Theorem C02_side_conditions : params_ok = true /\ tables_ok = true.
+Proof. split; [exact params_ok_holds | exact tables_ok_holds]. Qed.
